@@ -372,6 +372,9 @@ Third:
 			}
 		}
 	case '\n':
+		if l.heredoc.exists() && !l.readHeredocs() {
+			return nil
+		}
 		l.emit('\n')
 		if !l.linebreak() {
 			return nil
@@ -398,6 +401,9 @@ In:
 		case WORD:
 			l.emit(WORD)
 		case ';', '\n':
+			if tok == '\n' && l.heredoc.exists() && !l.readHeredocs() {
+				return nil
+			}
 			l.emit(tok)
 			if !l.linebreak() {
 				return nil
